@@ -174,6 +174,9 @@ func (vm *VM) Run() error {
 			if repetitions < 0 {
 				return fmt.Errorf("%w: negative count: %s", ErrBadRepetition, right)
 			}
+			if n := len(left.Elements); n > 0 && repetitions > math.MaxInt32/n {
+				return fmt.Errorf("%w: result too large: %s", ErrBadRepetition, right)
+			}
 			elements := make([]value, 0, len(left.Elements)*repetitions)
 			for range repetitions {
 				elements = append(elements, left.Elements...)
